@@ -512,6 +512,16 @@ fn exec_op(ctx: &mut Ctx<'_>, op: &Op) -> Res {
             Res::Unit
         }),
         (Tgt::Map(m), Op::Len) => Res::Len(m.len()),
+        (Tgt::Map(m), Op::EqSelf) => {
+            #[allow(clippy::eq_op)]
+            let r = *m == *m;
+            Res::Bool(r)
+        }
+        (Tgt::Set(s), Op::EqSelf) => {
+            #[allow(clippy::eq_op)]
+            let r = *s == *s;
+            Res::Bool(r)
+        }
         (Tgt::Map(m), Op::Extend(kv)) => {
             let items: Vec<(Key, Val)> = kv.iter().map(|(k, v)| (Key::new(*k), Val::new(*v))).collect();
             let mut mm: &Map = m;
@@ -523,6 +533,7 @@ fn exec_op(ctx: &mut Ctx<'_>, op: &Op) -> Res {
             match kind {
                 IterKind::Iter => {
                     for (k, v) in m.iter(g) {
+                        callback_tick(sh); // the code consuming the iterator may panic (C18)
                         let (kk, ki) = kread(ctx, k, "iter");
                         let vi = vread(ctx, v, "iter").0;
                         items.push(Item { k: kk, kinst: ki, vid: vi, clock: sched::now() });
@@ -530,12 +541,14 @@ fn exec_op(ctx: &mut Ctx<'_>, op: &Op) -> Res {
                 }
                 IterKind::Keys => {
                     for k in m.keys(g) {
+                        callback_tick(sh);
                         let (kk, ki) = kread(ctx, k, "keys");
                         items.push(Item { k: kk, kinst: ki, vid: NONE, clock: sched::now() });
                     }
                 }
                 IterKind::Values => {
                     for v in m.values(g) {
+                        callback_tick(sh);
                         let vi = vread(ctx, v, "values").0;
                         items.push(Item { k: NONE, kinst: NONE, vid: vi, clock: sched::now() });
                     }
